@@ -970,7 +970,7 @@ func c16R10(p *core.Program, r *core.Report) {
 			}
 			enum := ""
 			for _, part := range strings.Split(tag.Get("validate"), ",") {
-				if part == "http_method" || strings.HasPrefix(part, "oneof=") || strings.HasPrefix(part, "eq=") {
+				if part == "http_method" || part == "urnscheme" || strings.HasPrefix(part, "oneof=") || strings.HasPrefix(part, "eq=") {
 					enum = part
 				}
 			}
@@ -1042,8 +1042,8 @@ func c16R10(p *core.Program, r *core.Report) {
 		// written is a constant or falls back to a constant on the edge where the legacy value is empty
 		for k, f := range fields {
 			w, ok := writes[k]
-			if !ok || !f.required || !f.text || f.enum == "" {
-				continue
+			if !ok || !f.text || f.enum == "" || (!f.required && f.enum != "urnscheme") {
+				continue // (an empty string is not a URN scheme either, so `urnscheme` implies required)
 			}
 			nEnum++
 			var bad []string
@@ -1105,6 +1105,18 @@ func c16R10(p *core.Program, r *core.Report) {
 						bad = append(bad, "a value that is not replaced by a constant when it is empty ("+p.Pos(x.Pos())+")")
 					}
 				default:
+					// a value admitted by the validator's own predicate on the edge that leads here
+					if f.enum == "urnscheme" && at != nil {
+						for _, ce := range core.ControllingConds(at) {
+							if c, ok := ce.Cond.(*ssa.Call); ok && ce.Taken {
+								if o := core.CalleeObj(&c.Call); o != nil && strings.HasSuffix(core.ObjName(o), "urns.IsValidScheme") && len(c.Call.Args) == 1 && canon(c.Call.Args[0]) == canon(v) {
+									return
+								}
+							}
+						}
+						bad = append(bad, canonShort(v)+", which is not tested with urns.IsValidScheme on every path to the call ("+p.Pos(at.Instrs[0].Pos())+")")
+						return
+					}
 					bad = append(bad, canonShort(v)+", which is empty when the legacy member is ("+p.Pos(at.Instrs[0].Pos())+")")
 				}
 			}
